@@ -70,7 +70,35 @@ fn call<const N: usize>(q: &quill::tree::mappings::Mappings<N, ()>, ns: &[String
 }
 
 fn case<const N: usize>(rng: &mut Rng, rep: &mut Report, cfg: &GenCfg) {
-    let m = gen::gen_maps(rng, &cfg.clone().with_n(N));
+    let mut m = gen::gen_maps(rng, &cfg.clone().with_n(N));
+    // Planted key collisions (every 12th set): two fields / methods of one class with the SAME complete name row whose descriptors
+    // differ only in a class X vs. the name Z that X has in another namespace t (no entry is keyed Z). Both are distinct entries
+    // today; with namespace t in front both descriptors read `..Z..`, so the two entries cannot both be kept: the statement's "the
+    // same entries" leaves only a refusal. (An implementation that quietly keeps one of two "equal" entries loses the other one's
+    // comment and parameters.)
+    if rng.chance(1, 12) {
+        let t = 1 + rng.below(N - 1);
+        let cands: Vec<(String, String)> = m.classes.iter().filter_map(|(k, c)| c.names[t].clone().map(|z| (k.clone(), z))).filter(|(k, z)| k != z && !m.classes.contains_key(z) && !k.contains('[') ).collect();
+        if !cands.is_empty() && !m.classes.is_empty() {
+            let (x, z) = cands[rng.below(cands.len())].clone();
+            let host = m.classes.keys().nth(rng.below(m.classes.len())).unwrap().clone();
+            let row: maps::model::Row = (0..N).map(|i| Some(format!("twin{i}"))).collect();
+            let c = m.classes.get_mut(&host).unwrap();
+            if rng.bool() {
+                let (dx, dz) = if rng.bool() { (format!("L{x};"), format!("L{z};")) } else { (format!("[[L{x};"), format!("[[L{z};")) };
+                c.fields.insert(("twin0".into(), dx), maps::Field { names: row.clone(), comment: Some("first twin".into()) });
+                c.fields.insert(("twin0".into(), dz), maps::Field { names: row.clone(), comment: None });
+                rep.count("planted.collision.field");
+            } else {
+                let (dx, dz) = (format!("(L{x};I)V"), format!("(L{z};I)V"));
+                let params: BTreeMap<usize, maps::Param> = [(1usize, maps::Param { names: (0..N).map(|i| Some(format!("arg{i}"))).collect(), comment: Some("of the first twin".into()) })].into_iter().collect();
+                c.methods.insert(("twin0".into(), dx), maps::Method { names: row.clone(), comment: None, params });
+                c.methods.insert(("twin0".into(), dz), maps::Method { names: row.clone(), comment: Some("second twin".into()), params: BTreeMap::new() });
+                rep.count("planted.collision.method");
+            }
+        }
+    }
+    let m = m;
     let mut q = maps::to_quill::<N, ()>(&m, &mut Ins::Shuffle(&mut rng.fork())).expect("expressible");
     // the comment of the mapping set itself (no file format carries it, callers set the public field): "comments untouched"
     if rng.chance(1, 3) { q.javadoc = Some(quill::tree::mappings::JavadocMapping(format!("set-level comment {}\nsecond line", rng.below(1000)))); rep.count("set_level_comment.present"); }
@@ -208,6 +236,7 @@ fn main() {
     if ctx.replay.is_none() {
         meta.oblige("all 2! + 3! + 4! = 32 permutations applied", rep.seen_n("permutations") == 32);
         meta.oblige("sets carrying a comment of their own (set level)", rep.get("set_level_comment.present") >= 100);
+        meta.oblige("planted key collisions (two entries whose keys coincide only in the new first namespace): >= 50 on fields, >= 50 on methods, and the refusal expected for them seen", rep.get("planted.collision.field") >= 50 && rep.get("planted.collision.method") >= 50 && rep.get("outcome.err.collision_field") >= 50 && rep.get("outcome.err.collision_method") >= 50);
         for k in ["outcome.ok", "outcome.ok.identity", "outcome.err.missing_class", "outcome.err.missing_field", "outcome.err.missing_method", "outcome.err.collision_class",
             "outcome.ok.parameter_without_new_first_name", "descriptor.mentions_mapped_class", "descriptor.mentions_unmapped_class", "descriptor.array", "inverse.checked", "nontrivial.descriptor_translated"] {
             meta.oblige(format!("at least one case with {k}"), rep.get(k) > 0);
